@@ -150,7 +150,7 @@ func c06Labels(s ttxStream) (bool, []string) {
 
 func TestC06(t *testing.T) {
 	runWitnesses(t, "C06")
-	rapidCheck(t, "C06/streams", tier(6000, 300000), func(rt *rapid.T) {
+	rapidCheck(t, "C06/streams", tier(6000, 2000000), func(rt *rapid.T) {
 		s := genTTXStream(rt)
 		nt, ls := c06Labels(s)
 		ev.Case(nt, fmt.Sprintf("%v", s), ls...)
